@@ -26,9 +26,9 @@ def ncalls(local, remote):
     return 3 + (3 * len(local) + 1) + (3 * len(remote) + 1)
 
 
-def scen(label, kind, maxlen, pres, modes=ALL_MODES, remote=REMOTE, sim=None, medias=("av",)):
+def scen(label, kind, maxlen, pres, modes=ALL_MODES, remote=REMOTE, sim=None, medias=("av",), envs=("ok",)):
     return dict(label=label, kind=kind, maxlen=maxlen, pres=pres, modes=modes, local=LOCAL, remote=remote, sim=sim,
-                medias=medias)
+                medias=medias, envs=envs)
 
 
 # "connected": a really connected WebRtc pair (ICE + DTLS up); the class "otherfp" (well-formed description carrying
@@ -38,10 +38,14 @@ TIERS = {
     "quick": [
         scen("all-sequences/len3", "bounded", 3, NEGOTIATED),
         scen("connected/len2", "bounded", 2, ("connected",), modes=("WebRtc",), remote=CONNECTED_REMOTE),
+        # fault injection: no local socket can be bound (allowed calls may be refused - they must still be atomic);
+        # this is also the deterministic witness of the open findings KF-C09-4/5
+        scen("nobind/len1", "bounded", 1, ("fresh",), envs=("nobind",)),
     ],
     "thorough": [
         scen("all-sequences/len3", "bounded", 3, NEGOTIATED),
         scen("connected/len3", "bounded", 3, ("connected",), modes=("WebRtc",), remote=CONNECTED_REMOTE),
+        scen("nobind/len2", "bounded", 2, ("fresh",), envs=("nobind",)),
         scen("data-channel/len3", "bounded", 3, NEGOTIATED, modes=("WebRtc",), medias=("dc", "avdc")),
         scen("all-sequences/len4/fresh", "bounded", 4, ("fresh",)),
         scen("random/len6", "sim", 6, NEGOTIATED, sim=60000),
@@ -67,6 +71,7 @@ CONSTANTS
   Pres = {S(sc['pres'])}
   Modes = {S(sc['modes'])}
   Medias = {S(sc['medias'])}
+  Envs = {S(sc['envs'])}
   LocalClasses = {S(sc['local'])}
   RemoteClasses = {S(sc['remote'])}
   MaxLen = {maxlen}
@@ -129,7 +134,8 @@ def _confirm_hang(ck, table, r):
     when the same program hangs again in three further runs, each run alone."""
     pp = os.path.join(ck.dir, "confirm_hang_program.ndjson")
     c = r["case"]
-    vlib.write_ndjson(pp, [{"pre": c["pre"], "modes": [c["mode"]], "medias": [c["media"]], "calls": c["calls"]}])
+    vlib.write_ndjson(pp, [{"pre": c["pre"], "modes": [c["mode"]], "medias": [c["media"]], "envs": [c.get("env", "ok")],
+                            "calls": c["calls"]}])
     for k in range(3):
         out = os.path.join(ck.dir, "confirm_hang.ndjson")
         p = vlib.run_bin("jsep", [table, pp, out, "1"], timeout=1200)
@@ -150,8 +156,8 @@ def replay_programs(ck, table, programs, label, jobs):
         if ty == "tool_error":
             raise vlib.ToolError(f"jsep harness: {json.dumps(r)[:600]}")
         if ty == "divergence":
-            r["case"] = {"mode": r["mode"], "media": r.get("media", "av"), "pre": r["pre"], "calls": r["program"],
-                         "scenario": label}
+            r["case"] = {"mode": r["mode"], "media": r.get("media", "av"), "env": r.get("env", "ok"), "pre": r["pre"],
+                         "calls": r["program"], "scenario": label}
             if r.get("failure_site") == "hang" and not _confirm_hang(ck, table, r):
                 ck.notes.append({"unconfirmed_hang": r["case"]})
                 continue
@@ -180,7 +186,7 @@ def run(tier):
                     raise vlib.ToolError(f"{sc['label']}: TLC printed {nprog} programs, expected {expect}")
                 exhaustive = exhaustive and pres_["finished"] and tres["finished"]
             summ = replay_programs(ck, table, programs, sc["label"], jobs)
-            if summ["programs"] != nprog * len(sc["modes"]) * len(sc["medias"]):
+            if summ["programs"] != nprog * len(sc["modes"]) * len(sc["medias"]) * len(sc["envs"]):
                 raise vlib.ToolError(f"{sc['label']}: {summ['programs']} program runs for {nprog} programs x "
                                      f"{len(sc['modes'])} modes x {len(sc['medias'])} media sets")
         except vlib.ToolError as e:
@@ -192,6 +198,7 @@ def run(tier):
         total_calls += summ["calls"]
         refused += summ["programs_with_refused_call"]
         ck.notes.append({"label": sc["label"], "pres": sc["pres"], "modes": sc["modes"], "medias": sc["medias"],
+                         "envs": sc["envs"],
                          "remote_classes": sc["remote"],
                          **{k: summ[k] for k in ("programs", "calls", "ok", "err", "panic", "programs_with_refused_call",
                                                  "table_edges", "table_edges_hit_per_mode", "rows_suppressed")}})
@@ -252,7 +259,7 @@ def replay(path):
     table, _ = gen_table(ck, _scenario_of(case), "replay")
     pp = os.path.join(ck.dir, "replay_one_program.ndjson")
     vlib.write_ndjson(pp, [{"pre": case["pre"], "modes": [case["mode"]], "medias": [case.get("media", "av")],
-                            "calls": case["calls"]}])
+                            "envs": [case.get("env", "ok")], "calls": case["calls"]}])
     summ = replay_programs(ck, table, pp, "replay_one", 2)
     ck.cov.update(traces_validated_against_impl=summ["programs"], evaluations=summ["calls"], samples=[case])
     ck.finish()
